@@ -245,7 +245,7 @@ fn union_members(t: &Ty) -> Vec<&Ty> {
     }
 }
 
-fn check_resolvers(case: &mut Case, program: &Program, r: &RefT, detail: &Value) -> CaseResult {
+fn check_resolvers(case: &mut Case, program: &Program, r: &RefT, model_fields: &BTreeSet<(String, String)>, detail: &Value) -> CaseResult {
     let scope = program.modules["resolvers"].clone();
     let Some(decl) = scope.types.get("Resolvers") else {
         return Err(Failure::new("resolvers-type-missing", "no `Resolvers` type in the resolvers file", detail.clone()));
@@ -282,7 +282,8 @@ fn check_resolvers(case: &mut Case, program: &Program, r: &RefT, detail: &Value)
                 if e.optional && !def.fields.is_empty() {
                     return Err(Failure::new("resolvers-entry-optional", format!("entry {} is optional although the type has fields", e.key), detail.clone()));
                 }
-                let exp: BTreeSet<String> = def.fields.iter().map(|f| f.name.clone()).collect();
+                // (fields marked `@model` are supplied by the parent object: the model plugin takes them out)
+                let exp: BTreeSet<String> = def.fields.iter().map(|f| f.name.clone()).filter(|f| !model_fields.contains(&(e.key.clone(), f.clone()))).collect();
                 let got: BTreeSet<String> = fields.iter().map(|p| p.key.clone()).collect();
                 if exp != got {
                     return Err(Failure::new(
@@ -290,6 +291,11 @@ fn check_resolvers(case: &mut Case, program: &Program, r: &RefT, detail: &Value)
                         format!("Resolvers.{} has keys {got:?}, expected the fields {exp:?}", e.key),
                         detail.clone(),
                     ));
+                }
+                if !model_fields.is_empty() {
+                    // with the model plugin the object types of the resolvers file are `Pick`s of their model
+                    // fields: only the key sets are compared
+                    continue;
                 }
                 for fp in fields {
                     if fp.optional {
@@ -481,7 +487,7 @@ fn case_fn(case: &mut Case) -> CaseResult {
     } else {
         vec![canon_ts(&sdl_doc)]
     };
-    let schema_sdl = schema_texts.join("\n# ---- next file\n");
+    let mut schema_sdl = schema_texts.join("\n# ---- next file\n");
     let detail0 = json!({"schema": schema_sdl});
     let sfiles: Vec<(PathBuf, String)> = schema_texts.iter().enumerate().map(|(i, t)| (PathBuf::from(format!("/p/schema{i}.graphql")), t.clone())).collect();
     let ss = schema_stage(&sfiles, &detail0)?;
@@ -514,16 +520,49 @@ fn case_fn(case: &mut Case) -> CaseResult {
     };
     // one case in forty: the files are the ones the built CLI leaves in a directory in which `generate` already ran
     // with other options
+    let mut model_fields: BTreeSet<(String, String)> = BTreeSet::new();
     if std::path::Path::new(crate::cli::CLI_BIN).exists() && case.ch.chance(1, 40) {
         case.label("declarations-from-cli-after-config-change");
+        // half of the SDL ones enable the built-in model plugin and mark some fields of object types with `@model`
+        // (the directive comes from the plugin): the resolvers declaration then asks for no resolver for them
+        let with_model = !via_json && case.ch.flip();
         let files: Vec<(String, String)> = if via_json {
             vec![("schema.json".to_string(), js_text.clone().unwrap_or_default())]
+        } else if with_model {
+            case.label("model-plugin");
+            let mut doc = sdl_doc.clone();
+            for d in doc.iter_mut() {
+                if let MTsDef::Type(t) = d {
+                    if t.kind != Kind::Object || t.fields.len() < 2 {
+                        continue;
+                    }
+                    // never all fields of a type
+                    let n = t.fields.len();
+                    let keep = case.ch.below(n);
+                    for (i, f) in t.fields.iter_mut().enumerate() {
+                        if i != keep && case.ch.chance(1, 3) {
+                            let m = MDirective { name: "model".into(), args: vec![] };
+                            // after the directives the field already has (`@deprecated(..) @model`), or before them
+                            if case.ch.flip() {
+                                f.directives.push(m);
+                            } else {
+                                f.directives.insert(0, m);
+                            }
+                            model_fields.insert((t.name.clone(), f.name.clone()));
+                        }
+                    }
+                }
+            }
+            vec![("s0.graphqls".to_string(), canon_ts(&doc))]
         } else {
             schema_texts.iter().enumerate().map(|(i, t)| (format!("s{i}.graphqls"), t.clone())).collect()
         };
-        let (a, _, c) = cli_generate_after_earlier_run(&files, "query CliQ { __typename }\n", &scfg, &other_schema_gen_config(&scfg), &detail0)?;
+        let (a, _, c) = cli_generate_after_earlier_run(&files, "query CliQ { __typename }\n", &scfg, &other_schema_gen_config(&scfg), with_model, &detail0)?;
         schema_dts = a;
         resolvers_dts = c;
+        if with_model {
+            schema_sdl = files[0].1.clone();
+        }
     }
     let detail = json!({"schema": schema_sdl, "schema_dts": schema_dts, "resolvers_dts": resolvers_dts, "allowUndefinedAsOptionalInput": allow_undefined,
         "scalars": cfg.map.iter().map(|(k, v)| (k.clone(), format!("{v:?}"))).collect::<BTreeMap<_, _>>()});
@@ -546,7 +585,7 @@ fn case_fn(case: &mut Case) -> CaseResult {
             }
         }
     }
-    check_resolvers(case, &program, &r, &detail)?;
+    check_resolvers(case, &program, &r, &model_fields, &detail)?;
     // input objects: "readonly fields" — every property is readonly and every list inside a field type is
     // a readonly array (an input value may well be a frozen / `as const` array, which TypeScript does not
     // accept where a mutable `T[]` is declared; membership of plain values cannot see this)
